@@ -115,6 +115,12 @@ def _check_construct(ctx, rep, pytrs, t, ns, r, ew, s, tenc, renc, senc,
                 MC.default_ns = 's' if ns == 'n' else 'n'
                 MC.default_ew = 'e' if ew == 'w' else 'w'
             elif channel == 'master':
+                # the same components were built a moment ago while
+                # MasterConfig said the opposite
+                MC.default_ns = 's' if ns == 'n' else 'n'
+                MC.default_ew = 'e' if ew == 'w' else 'w'
+                pytrs.TRS.from_twprgesec(tv, rv, sv)
+                pytrs.TRS.construct_trs(tv, rv, sv)
                 MC.default_ns, MC.default_ew = dns, dew
             elif channel == 'explicit-vs-default':
                 # Explicit letters must win over contrary defaults.
